@@ -26,9 +26,12 @@ enum Div {
 	LockedByNeverPosted,
 	CancelAfterPost,
 	Reorg,
+	/// an incoming payment the wallet has seen confirmed is reorganised away and mined again two
+	/// blocks higher, without the wallet looking in between (its record stays Unspent, stale height)
+	ReorgRemined,
 }
 
-const DIVS: [Div; 7] = [
+const DIVS: [Div; 8] = [
 	Div::DeleteRecord,
 	Div::UnspentToSpent,
 	Div::UnspentToLockedDangling,
@@ -36,6 +39,7 @@ const DIVS: [Div; 7] = [
 	Div::LockedByNeverPosted,
 	Div::CancelAfterPost,
 	Div::Reorg,
+	Div::ReorgRemined,
 ];
 
 fn needs_delete_unconfirmed(d: Div) -> bool {
@@ -100,6 +104,34 @@ fn inject(w: &World, d: Div, nth: usize) -> bool {
 			}
 			w.mine("M").unwrap();
 			true
+		}
+		Div::ReorgRemined => {
+			let b = w.w("B");
+			let r = (|| -> Result<crate::core::core::Transaction, crate::libwallet::Error> {
+				let s1 = b.init_send(default_args(3 * G))?;
+				b.lock(&s1)?;
+				let s2 = a.receive(&s1, None)?;
+				let s3 = b.finalize(&s2)?;
+				let tx = s3.tx_or_err()?.clone();
+				b.post(&tx)?;
+				Ok(tx)
+			})();
+			let tx = match r {
+				Ok(t) => t,
+				Err(_) => return false,
+			};
+			w.mine("M").unwrap();
+			a.refresh().ok();
+			let h = w.node.height();
+			let mut prev = w.header_at(h - 1);
+			let mut head = false;
+			for i in 0..3 {
+				let t: Vec<crate::core::core::Transaction> = if i == 1 { vec![tx.clone()] } else { vec![] };
+				let (hd, is_head) = w.mine_on(&prev, "M", &t).unwrap();
+				prev = hd;
+				head = is_head;
+			}
+			head
 		}
 		Div::Reorg => {
 			// replace the last two blocks (whatever they contain) by a longer empty branch
